@@ -75,7 +75,7 @@ M("ufd_initial_no_filter", "no curvature filter after the initial update_fun_def
   ("lbfgsb/main.py", "        if len(X) > 1:\n            # the restored gradients may have been rewritten: as in the main loop,\n            # the updated G must satisfy the strong wolfe condition\n            X, G = make_X_and_G_respect_strong_wolfe(X, G, eps_SY, logger=logger)\n", ""))
 M("cp_d_not_zeroed_on_bound", "d = -grad also for variables held at a bound", ["C08"],
   ("lbfgsb/cauchy.py", "    d = np.where(t == 0, 0.0, -grad)\n", "    d = -grad\n"))
-M("cp_no_d_reset", "d[ibp] = 0 omitted after fixing a variable", ["C08"],
+M("cp_no_d_reset", "d[ibp] = 0 omitted after fixing a variable; equivalent mutant since fix 51d3a30: the clipped final move x + t*d puts every fixed variable back on its bound (t >= its breakpoint) and nothing else reads d", [],
   ("lbfgsb/cauchy.py", "        p += g_b * W_b\n        d[ibp] = 0\n", "        p += g_b * W_b\n"))
 M("cp_dtmin_not_clamped", "delta_t_min not clamped at 0", ["C08"],
   ("lbfgsb/cauchy.py", "    delta_t_min = 0 if delta_t_min < 0 else delta_t_min\n", "    delta_t_min = delta_t_min\n"))
@@ -84,7 +84,7 @@ M("cp_fprime_sign", "wrong sign in the f' update", ["C08"],
    "        f_prime += delta_t * f_second - g_b * (g_b + mats.theta * zb)\n"))
 M("cp_c_not_advanced", "c not advanced on the last segment", ["C08"],
   ("lbfgsb/cauchy.py", "    c += delta_t_min * p\n\n    if logger is not None:", "    if logger is not None:"))
-M("cp_strict_break", "break test uses <= (stops at a breakpoint one segment early on ties)", ["C08"],
+M("cp_strict_break", "break test uses <= (stops at a breakpoint when the segment minimiser coincides with it exactly); used to be visible through the overshoot that fix 51d3a30 removed, now only differs when delta_t_min == delta_t bit for bit, a stop-or-continue decision at its threshold which the C08 oracle does not judge", [],
   ("lbfgsb/cauchy.py", "        if delta_t > 0 and delta_t_min < delta_t:\n            is_gpc_found = True", "        if delta_t > 0 and delta_t_min <= delta_t:\n            is_gpc_found = True"))
 M("cp_wrong_bound_lower", "breakpoints of decreasing variables computed from the upper bound", ["C08"],
   ("lbfgsb/cauchy.py", "        grad[mask] < 0, (x - ub)[mask] / grad[mask], (x - lb)[mask] / grad[mask]\n",
